@@ -338,7 +338,7 @@ theorem table_exact_collapsed (fl : Flags) (t : Table) (maxWidth : Int) (hnr : t
   obtain ⟨hsw, hsum, hrl, _⟩ := shrinkWidths_all_wrappable t maxWidth ws0 hl (fun w hw => by have := hp w hw; omega) hover' hmw hwrap
   have hst := hstable ws0 h0
   rw [calcWidths_ne fl t maxWidth hne, h0]
-  simp only [show ws0.sum > maxWidth by omega, if_true, hsw, hst]
+  simp only [show ws0.sum > maxWidth by omega, if_true, hsw, hst, hsum, ite_self]
   have hr1 : ∀ w ∈ collapseWidths ws0 t.wrapable maxWidth, 1 ≤ w := by
     rw [← hst]; exact remeasure_pos t hfree _
   have hrne : collapseWidths ws0 t.wrapable maxWidth ≠ [] := by
@@ -391,8 +391,12 @@ theorem width_fits_of_keep (fl : Flags) (t : Table) (maxWidth : Int) (hnr : t.No
       intro h; rw [h] at hml; simp at hml
       rw [← hml] at hrl
       exact hne (List.eq_nil_of_length_eq_zero hrl.symm)
-    obtain ⟨r, h1, h2, h3, h4⟩ := padWidths_spec fl t _ maxWidth maxWidth hmne hm1
     have hs := sum_le_of_zip_le _ _ hml hmle
+    have htw : (t.remeasure (collapseWidths ws0 t.wrapable maxWidth)).sum ≤
+        (if fl.staleTableWidth then maxWidth else (t.remeasure (collapseWidths ws0 t.wrapable maxWidth)).sum) := by
+      split <;> omega
+    generalize (if fl.staleTableWidth then maxWidth else (t.remeasure (collapseWidths ws0 t.wrapable maxWidth)).sum) = tw at htw ⊢
+    obtain ⟨r, h1, h2, h3, h4⟩ := padWidths_spec fl t _ tw maxWidth hmne hm1
     refine ⟨r, h1, ?_, by omega, hge1 _ _ h4 h2.symm hm1⟩
     rw [h3]
     have := padTarget_le fl t maxWidth
@@ -431,6 +435,58 @@ theorem width_fits (fl : Flags) (t : Table) (maxWidth : Int) (hnr : t.NoRatio) (
 example : ({ columns := [{ header := wCell ['a', 'b', 'c', 'd', 'e', 'f'], footer := wCell [], cells := [wCell ['1']] },
                           { header := wCell ['g', 'h', 'i', 'j', 'k', 'l', 'm', 'n'], footer := wCell [], cells := [] }],
              padding := (0, 0, 0, 0) } : Table).calcWidths Flags.today 9 = some [4, 5] := by decide
+
+/-- **table_expand_exact, unconditionally for free columns.**  With `table_width` recomputed after the re-measure
+(`staleTableWidth` repaired) an expanding table of free columns (no `width` / `min_width` / `no_wrap`, no active ratio;
+cells measuring `0 ≤ maximum`) is EXACTLY as wide as asked at every available width of at least one cell per column —
+whether its natural widths fit or had to be collapsed, and whatever the re-measure did to the collapsed widths. -/
+theorem table_expand_exact_all (fl : Flags) (hst : fl.staleTableWidth = false) (t : Table) (maxWidth : Int)
+    (hexp : t.expand = true) (hfl : fl.minWidthCapsExpand = false ∨ t.minWidth = none)
+    (hnr : t.NoRatio) (hfree : t.AllFree) (hne : t.columns ≠ []) (hnw : ∀ c ∈ t.columns, c.noWrap = false)
+    (hmw : (t.columns.length : Int) ≤ maxWidth) :
+    ∃ ws, t.calcWidths fl maxWidth = some ws ∧ ws.sum = maxWidth ∧ ws.length = t.columns.length := by
+  obtain ⟨ws0, h0, hl, hp⟩ := firstWidths_free fl t hnr hfree maxWidth
+  have h0' := firstWidths_noRatio fl t hnr maxWidth
+  rw [h0] at h0'
+  simp only [Option.some.injEq] at h0'
+  by_cases hover : ws0.sum > maxWidth
+  · have hwrap : ∀ c ∈ t.columns, c.width = none ∧ c.noWrap = false := by
+      intro c hc
+      obtain ⟨i, hi, rfl⟩ := List.getElem_of_mem hc
+      have : (t.columns[i], i) ∈ t.indexed := by
+        unfold Table.indexed; exact List.mem_zipIdx_iff_getElem?.2 (by simp [hi])
+      exact ⟨(hfree _ this).1, hnw _ (List.getElem_mem _)⟩
+    obtain ⟨hsw, hsum, hrl, _⟩ := shrinkWidths_all_wrappable t maxWidth ws0 hl (fun w hw => by have := hp w hw; omega)
+      (by omega) (by omega) hwrap
+    have hkeep := collapse_widths_keep ws0 t.wrapable maxWidth (by simp [Table.wrapable, hl]) (wrapable_all t hwrap) hp (by omega)
+    obtain ⟨hml, hm1, hmle⟩ := remeasure_free t hfree _ hrl hkeep
+    have hmne : t.remeasure (collapseWidths ws0 t.wrapable maxWidth) ≠ [] := by
+      intro h; rw [h] at hml; simp at hml
+      rw [← hml] at hrl
+      exact hne (List.eq_nil_of_length_eq_zero hrl.symm)
+    have hs := sum_le_of_zip_le _ _ hml hmle
+    rw [calcWidths_ne fl t maxWidth hne, h0]
+    simp only [hover, if_true, hsw, hst, Bool.false_eq_true, if_false]
+    obtain ⟨r, h1, h2, h3, _⟩ := padWidths_spec fl t _ (t.remeasure (collapseWidths ws0 t.wrapable maxWidth)).sum maxWidth hmne hm1
+    refine ⟨r, h1, ?_, by omega⟩
+    rw [h3, padTarget_expand fl t maxWidth hexp hfl]
+    split
+    · omega
+    · rename_i hc
+      unfold Table.padCond at hc
+      simp only [hexp, Bool.and_true, Bool.or_eq_true, decide_eq_true_eq, not_or] at hc
+      omega
+  · exact table_expand_exact_free fl t maxWidth hexp hfl hnr hfree hne (by rw [← h0']; omega)
+
+/-- Witness: today an expanding table whose ratio column was handed its flex minimum (1 + padding) and then collapsed is
+re-measured down to its content and never padded again — 4 cells instead of 6. -/
+def wTableStale : Table :=
+  { columns := [{ header := wCell ['a', 'a', 'a', 'a'], footer := wCell [], cells := [] },
+                { header := wCell ['b'], footer := wCell [], cells := [], ratio := some 1 }],
+    box := none, expandFlag := true, padding := (0, 2, 0, 0) }
+
+theorem old_expand_stale_width_fails : wTableStale.calcWidths Flags.repaired 6 = some [3, 1] := by decide
+example : wTableStale.calcWidths Flags.allRepaired 6 = some [5, 1] := by decide
 
 /-! ### totality (what C14 needs): `_calculate_column_widths` never trips `assert total_ratio > 0` -/
 
